@@ -55,6 +55,10 @@ def cleanup_routine(e):
     """The routine that unlinks a named semaphore and unregisters it from the tracker."""
     c = _cls(e, "SemLock")
     out = [m for m in c.methods.values() if any(isinstance(n, ast.Call) and _is_call_to(n, "sem_unlink") for n in func_nodes(m))]
+    if not out:
+        # the same routine as a module-level function of the module
+        out = [f for q, f in e.prog.funcs.items() if q.startswith(SY + ":") and f.cls is None and f.kind == "def"
+               and any(isinstance(n, ast.Call) and _is_call_to(n, "sem_unlink") for n in func_nodes(f))]
     if len(out) != 1:
         raise AnalysisError("anchor vanished: the SemLock routine calling sem_unlink")
     return out[0]
